@@ -49,7 +49,9 @@ Definition llrp_pairs : list (N * N) :=
     (44, 54);  (* GET_ACCESSSPECS *)
     (45, 55);  (* CLIENT_REQUEST_OP (reader -> client) -> CLIENT_REQUEST_OP_RESPONSE *)
     (46, 56);  (* GET_SUPPORTED_VERSION *)
-    (47, 57) ] (* SET_PROTOCOL_VERSION *).
+    (47, 57);  (* SET_PROTOCOL_VERSION *)
+    (1023, 1023) ] (* CUSTOM_MESSAGE: a custom request is answered by a custom message; the device
+                     service's documented custom-message command relies on this pairing *).
 
 (* ------------------------------------------------------------------ checkers *)
 
